@@ -20,44 +20,6 @@ variable {α : Type}
 def MacInjective (mac : Digest → Bytes → Bytes → Bytes) (d : Digest) : Prop :=
   ∀ s s' m m', mac d s m = mac d s' m' → s = s' ∧ m = m'
 
-/-- the stored object `w` is a byte string of the form `[label:]sig_p` — split at its first `_` — and
-`sig` is the MAC, under the reader's secret `s.secret` and the digest named by the label (the configured
-digest when there is no label), of `key ‖ p` -/
-def VerifiedPayload (cfg : Cfg α) (s : Signer) (key : Bytes) (w : Val α) (p : Bytes) : Prop :=
-  ∃ b hdr d, w = .bytes b ∧ b = hdr ++ us :: p ∧ us ∉ hdr ∧
-    ((hdr = d.label ++ colon :: cfg.mac d s.secret (key ++ p)) ∨
-     (colon ∉ hdr ∧ d = s.digest ∧ hdr = cfg.mac d s.secret (key ++ p)))
-
-private theorem verified_of_check (cfg : Cfg α) (s : Signer) (hs : cfg.signer = some s)
-    (key : Bytes) (w : Val α) (same : Bool) (p : Bytes)
-    (h : preLoads cfg key w same = .loads p ∨ preLoads cfg key w same = .custom p) :
-    VerifiedPayload cfg s key w p := by
-  unfold preLoads at h
-  cases same with
-  | true => simp at h
-  | false =>
-    cases w with
-    | int i => simp at h
-    | obj x => simp at h
-    | bytes b =>
-      simp only [Bool.false_eq_true, if_false] at h
-      by_cases hd : isDigits b = true
-      · simp [hd] at h
-      · simp only [hd] at h
-        cases hc : checkSign cfg key b with
-        | missing => simp [hc] at h
-        | unsecure => simp [hc] at h
-        | ok p' =>
-          have hp : p' = p := by
-            simp only [hc] at h
-            by_cases hce : isCustomEncoded cfg p' = true
-            · simp [hce] at h; exact h
-            · simp [hce] at h; exact h
-          subst hp
-          simp only [checkSign, hs] at hc
-          obtain ⟨hdr, d, h1, h2, h3⟩ := checkHash_ok hc
-          exact ⟨b, hdr, d, rfl, h1, h2, h3⟩
-
 /-- **The unpickler is reached only through a verified MAC.**  If `decode` is about to call
 `loads p`, then the stored object is a byte string of the form `[label:]sig_p` — split at its first
 `_` — and `sig` is the MAC, under the reader's secret and the digest named by the label (the
